@@ -4,6 +4,13 @@ MK = 'pedal/sandbox/mocked.py'
 TO = 'pedal/sandbox/timeout.py'
 
 CASES = [
+    # fix 62c49ac: a capture buffer the student closed
+    dict(name='revert-fix-closed-stdout', kind='mutant', rule='R9', key='_stop_mocking[buffer closed by the student]',
+         edits=[dict(file=SB, old="        try:\n            output = current_stdout.getvalue()\n        except ValueError:\n            # The student closed their standard output; nothing can be read back\n            output = \"\"\n        self.append_output(output, context)\n",
+                     new="        self.append_output(current_stdout.getvalue(), context)\n")]),
+    dict(name='twin-closed-stdout-tested-first', kind='twin',
+         edits=[dict(file=SB, old="        try:\n            output = current_stdout.getvalue()\n        except ValueError:\n            # The student closed their standard output; nothing can be read back\n            output = \"\"\n",
+                     new="        output = \"\"\n        try:\n            output = current_stdout.getvalue()\n        except (ValueError, OSError):\n            pass\n")]),
     # fix 6f5e45d: an exception class with an empty name
     dict(name='revert-fix-article-for-empty-name', kind='mutant', rule='R4', key="add_indefinite_article['']",
          edits=[dict(file='pedal/utilities/text.py', old="    if not phrase:\n        # Nothing to choose an article for (e.g., an exception class without a name)\n        return \"a \"+phrase\n", new="")]),
